@@ -15,11 +15,11 @@
 #define MAXLEN  4096
 
 enum { CL_TWO_INPUTS, CL_INTERLEAVED, CL_ADD_BETWEEN, CL_REMOVE_BETWEEN, CL_SWITCH_OUTPUT, CL_BIG, CL_SEG,
-       CL_REFLOW, CL_HOLD, CL_PARENT_FIRST, CL_FOUR_INPUTS };
+       CL_REFLOW, CL_HOLD, CL_PARENT_FIRST, CL_FOUR_INPUTS, CL_FAULT };
 static const char *const class_names[] = {
     "two_inputs_delivered", "inputs_interleaved", "input_added_between_sections", "input_removed_between_sections",
     "output_changed_between_sections", "section_ge_1024", "segmented_section", "input_flow_def_set_again",
-    "sink_holds_outputs", "join_released_before_inputs", "four_inputs_live", NULL };
+    "sink_holds_outputs", "join_released_before_inputs", "four_inputs_live", "allocation_refused_inside_set_flow_def", NULL };
 
 struct sent { uint8_t *b; int len; };
 struct in {
@@ -176,7 +176,8 @@ static int run(const uint8_t *tape, size_t len, struct vp_report *rep, unsigned 
     bool parent_first = (b0 >> 5) & 1;
     int mgrcfg = (b0 >> 6) & 3;
     static const int depth[4] = { 0, 0, 2, 8 };
-    if (fix_mem_init_full(&c->fm, depth[mgrcfg], 0, 0, 0, 0) != 0) return vp_internal(rep, "fix_mem_init");
+    /* configuration 1: dictionaries without spare room, so that every attribute the joiner adds to its flow definition allocates */
+    if (fix_mem_init_udict(&c->fm, depth[mgrcfg], 0, 0, 0, 0, mgrcfg == 1 ? 1 : -1, mgrcfg == 1 ? 0 : -1) != 0) return vp_internal(rep, "fix_mem_init");
     c->hash = vp_hash_mix(c->hash, b0);
     if (hold) CLS(CL_HOLD);
     R("C16/join initial inputs=%d hold=%d join-released-first=%d mgr=%d\n", ninit, hold, parent_first, mgrcfg);
@@ -210,7 +211,18 @@ static int run(const uint8_t *tape, size_t len, struct vp_report *rep, unsigned 
                     uint8_t a = tp_u8(&c->t);
                     struct uref *f = input_flow_def(c, a);
                     R("  input %d: set_flow_def again (flow attributes %02x)\n", idx, a);
+#ifdef VP_FAULTMALLOC_H
+                    /* allocation fault injection (engine/faultmalloc.h): the 1st or 2nd allocation inside the call is refused. The call
+                     * may fail; the joiner goes on forwarding every section of every input (judged by the following operations) */
+                    bool fault = (op & 0x20) != 0;
+                    if (fault) vp_fault_arm(1 + ((op >> 6) & 1));
+                    int fe = f ? upipe_set_flow_def(c->in[idx].sub, f) : UBASE_ERR_NONE;
+                    bool refused = fault && vp_fault_disarm() > 0;
+                    if (refused) { R("    (an allocation inside the call was refused: -> %d)\n", fe); CLS(CL_FAULT); c->hash = vp_hash_mix(c->hash, 0xfa); }
+                    if (f && !ubase_check(fe) && !refused) FAIL("C16/join/flow-def", "input %d refused block.mpegtspsi.", idx);
+#else
                     if (f && !ubase_check(upipe_set_flow_def(c->in[idx].sub, f))) FAIL("C16/join/flow-def", "input %d refused block.mpegtspsi.", idx);
+#endif
                     if (f) uref_free(f);
                     CLS(CL_REFLOW);
                     c->hash = vp_hash_mix(c->hash, 0x5000000 | a);
